@@ -136,6 +136,12 @@ def DivisionsFullStatement : Prop :=
     repartitionDivisions key parts a b force = some out →
     out.flatten = parts.flatten ∧ Truthful key b out
 
+/-- **`repartition(divisions = d)` has exactly `len(d) − 1` partitions** whenever the layer is built
+    (first half of "yields exactly divisions d": `_divisions()` returns `d` itself) -/
+theorem divisions_npartitions (a b : List Nat) (force : Bool) (L : DLayer)
+    (h : divisionsLayer a b force = some L) : L.out.length + 1 = b.length :=
+  divisionsLayer_count a b force L h
+
 /-! ### non-vacuity -/
 
 example : BoundsOK [0, 1, 2, 4, 5, 6, 8, 9, 10, 12, 13, 15] 15 :=
